@@ -7,6 +7,7 @@ package in_toto
 func init() {
 	vhRegister("vh_C17_utf8", vh_C17_utf8)
 	vhRegister("vh_C17_utf8_starclass", vh_C17_utf8_starclass)
+	vhRegister("vh_C17_utf8_3", vh_C17_utf8_3)
 }
 
 // vhValidUTF8: s is a sequence of ASCII bytes and two-byte characters (lead 0xC2..0xDF, continuation 0x80..0xBF).
@@ -20,21 +21,49 @@ func vhValidUTF8(s string) bool {
 		if i+1 < n {
 			two = vAnd(vAnd(vAnd(vLeByte(0xc2, s[i]), vLeByte(s[i], 0xdf)), vAnd(vLeByte(0x80, s[i+1]), vLeByte(s[i+1], 0xbf))), v[i+2])
 		}
-		v[i] = vOr(one, two)
+		three := false
+		if i+2 < n && vhThreeByte {
+			lead := vAnd(vLeByte(0xe0, s[i]), vLeByte(s[i], 0xef))
+			// second byte: E0 -> A0..BF, ED -> 80..9F (no surrogates), otherwise 80..BF
+			lo2 := vIteByte(vEqByte(s[i], 0xe0), 0xa0, 0x80)
+			hi2 := vIteByte(vEqByte(s[i], 0xed), 0x9f, 0xbf)
+			b2ok := vAnd(vLeByte(lo2, s[i+1]), vLeByte(s[i+1], hi2))
+			b3ok := vAnd(vLeByte(0x80, s[i+2]), vLeByte(s[i+2], 0xbf))
+			three = vAnd(vAnd(lead, vAnd(b2ok, b3ok)), v[i+3])
+		}
+		v[i] = vOr(one, vOr(two, three))
 	}
 	return v[0]
 }
 
-func vhIsTwo(s string, j int) bool { return vLeByte(0x80, s[j]) }
+// vhThreeByte: three-byte characters (U+0800..U+FFFF without surrogates) are part of the alphabet
+var vhThreeByte bool
+
+func vhIsTwo(s string, j int) bool {
+	if vhThreeByte {
+		return vAnd(vLeByte(0x80, s[j]), vLeByte(s[j], 0xdf))
+	}
+	return vLeByte(0x80, s[j])
+}
+func vhIsThree(s string, j int) bool {
+	if !vhThreeByte {
+		return false
+	}
+	return vLeByte(0xe0, s[j])
+}
 
 // vhRuneAt: the character that starts at byte j (a character boundary of a valid string).
 func vhRuneAt(s string, j int) int {
-	one := int(s[j])
-	if j+1 >= len(s) {
-		return one
+	r := int(s[j])
+	if j+1 < len(s) {
+		two := (int(s[j])&0x1f)<<6 | int(s[j+1])&0x3f
+		r = vIteInt(vhIsTwo(s, j), two, r)
 	}
-	two := (int(s[j])&0x1f)<<6 | int(s[j+1])&0x3f
-	return vIteInt(vhIsTwo(s, j), two, one)
+	if j+2 < len(s) && vhThreeByte {
+		three := (int(s[j])&0x0f)<<12 | (int(s[j+1])&0x3f)<<6 | int(s[j+2])&0x3f
+		r = vIteInt(vhIsThree(s, j), three, r)
+	}
+	return r
 }
 
 type vspecChar struct {
@@ -54,15 +83,22 @@ func vspecClassChar(p string, k int) []vspecChar {
 	esc := vEqByte(c, '\\')
 	plainOK := vAnd(vNot(esc), vNot(vOr(vEqByte(c, '-'), vEqByte(c, ']'))))
 	// unescaped
-	out = append(out, vspecChar{vAnd(plainOK, vNot(vhIsTwo(p, k))), int(c), k + 1})
+	one := func(q int) bool { return vAnd(vNot(vhIsTwo(p, q)), vNot(vhIsThree(p, q))) }
+	out = append(out, vspecChar{vAnd(plainOK, one(k)), int(c), k + 1})
 	if k+1 < m {
 		out = append(out, vspecChar{vAnd(plainOK, vhIsTwo(p, k)), vhRuneAt(p, k), k + 2})
 	}
+	if k+2 < m && vhThreeByte {
+		out = append(out, vspecChar{vAnd(plainOK, vhIsThree(p, k)), vhRuneAt(p, k), k + 3})
+	}
 	// escaped
 	if k+1 < m {
-		out = append(out, vspecChar{vAnd(esc, vNot(vhIsTwo(p, k+1))), int(p[k+1]), k + 2})
+		out = append(out, vspecChar{vAnd(esc, one(k+1)), int(p[k+1]), k + 2})
 		if k+2 < m {
 			out = append(out, vspecChar{vAnd(esc, vhIsTwo(p, k+1)), vhRuneAt(p, k+1), k + 3})
+		}
+		if k+3 < m && vhThreeByte {
+			out = append(out, vspecChar{vAnd(esc, vhIsThree(p, k+1)), vhRuneAt(p, k+1), k + 4})
 		}
 	}
 	return out
@@ -72,7 +108,7 @@ func vspecClassChar(p string, k int) []vspecChar {
 // negation) and the rest of the pattern matches after it (mNext[e]).
 func vspecClassAtU(p string, i int, ch int, mNext []bool) bool {
 	m := len(p)
-	tab := make([][2]vspecCls, m+8)
+	tab := make([][2]vspecCls, m+10)
 	get := func(k, st int) vspecCls {
 		if k >= m {
 			return vspecCls{false, false, false}
@@ -121,9 +157,9 @@ func vspecClassAtU(p string, i int, ch int, mNext []bool) bool {
 // vspecGlobU: well-formed and matches the whole name, character-wise.
 func vspecGlobU(p, s string) bool {
 	m, n := len(p), len(s)
-	M := make([][]bool, m+4)
+	M := make([][]bool, m+6)
 	for i := range M {
-		M[i] = make([]bool, n+3)
+		M[i] = make([]bool, n+5)
 	}
 	for j := 0; j <= n; j++ {
 		M[m][j] = j == n
@@ -136,28 +172,35 @@ func vspecGlobU(p, s string) bool {
 			if j < n {
 				// after the name character that starts at j
 				after := func(row []bool) bool {
+					r := vAnd(vAnd(vNot(vhIsTwo(s, j)), vNot(vhIsThree(s, j))), row[j+1])
 					if j+2 <= n {
-						return vIteBool(vhIsTwo(s, j), row[j+2], row[j+1])
+						r = vOr(r, vAnd(vhIsTwo(s, j), row[j+2]))
 					}
-					return vAnd(vNot(vhIsTwo(s, j)), row[j+1])
+					if j+3 <= n {
+						r = vOr(r, vAnd(vhIsThree(s, j), row[j+3]))
+					}
+					return r
 				}
 				star = vOr(star, after(M[i]))
 				any = after(M[i+1])
 				ch := vhRuneAt(s, j)
 				// literal character (one or two pattern bytes)
-				lit1 := vAnd(vAnd(vNot(vhIsTwo(p, i)), vEqInt(ch, int(c))), after(M[i+1]))
-				lit2 := false
+				oneP := func(q int) bool { return vAnd(vNot(vhIsTwo(p, q)), vNot(vhIsThree(p, q))) }
+				lit = vAnd(vAnd(oneP(i), vEqInt(ch, int(c))), after(M[i+1]))
 				if i+1 < m {
-					lit2 = vAnd(vAnd(vhIsTwo(p, i), vEqInt(ch, vhRuneAt(p, i))), after(M[i+2]))
+					lit = vOr(lit, vAnd(vAnd(vhIsTwo(p, i), vEqInt(ch, vhRuneAt(p, i))), after(M[i+2])))
 				}
-				lit = vOr(lit1, lit2)
+				if i+2 < m {
+					lit = vOr(lit, vAnd(vAnd(vhIsThree(p, i), vEqInt(ch, vhRuneAt(p, i))), after(M[i+3])))
+				}
 				if i+1 < m {
-					e1 := vAnd(vAnd(vNot(vhIsTwo(p, i+1)), vEqInt(ch, int(p[i+1]))), after(M[i+2]))
-					e2 := false
+					esc = vAnd(vAnd(oneP(i+1), vEqInt(ch, int(p[i+1]))), after(M[i+2]))
 					if i+2 < m {
-						e2 = vAnd(vAnd(vhIsTwo(p, i+1), vEqInt(ch, vhRuneAt(p, i+1))), after(M[i+3]))
+						esc = vOr(esc, vAnd(vAnd(vhIsTwo(p, i+1), vEqInt(ch, vhRuneAt(p, i+1))), after(M[i+3])))
 					}
-					esc = vOr(e1, e2)
+					if i+3 < m {
+						esc = vOr(esc, vAnd(vAnd(vhIsThree(p, i+1), vEqInt(ch, vhRuneAt(p, i+1))), after(M[i+4])))
+					}
 				}
 				mNext := make([]bool, m+2)
 				for e := 0; e <= m; e++ {
@@ -187,10 +230,24 @@ func vhC17U(p, s string) {
 
 // a = {pattern length, name length}: every byte arbitrary below 0xE0, both strings valid UTF-8
 func vh_C17_utf8(a []int) {
+	vhThreeByte = false
 	vhC17U(vBytes("pat", a[0]), vBytes("name", a[1]))
 }
 
 // a = {#symbolic bytes inside the class, name length}: pattern "*[" X "]"
 func vh_C17_utf8_starclass(a []int) {
+	vhThreeByte = false
 	vhC17U("*["+vBytes("cls", a[0])+"]", vBytes("name", a[1]))
+}
+
+// vh_C17_utf8_3: one-, two- and three-byte characters (U+0000..U+FFFF without surrogates).
+// a = {shape (0: pattern fully symbolic, 1: pattern "[" X "]"), #symbolic pattern bytes, name length}
+func vh_C17_utf8_3(a []int) {
+	vhThreeByte = true
+	p := vBytes("pat", a[1])
+	if a[0] == 1 {
+		p = "[" + p + "]"
+	}
+	vhC17U(p, vBytes("name", a[2]))
+	vhThreeByte = false
 }
